@@ -31,6 +31,14 @@ def run(ctx):
         ctx.check(ok, R, "from_system_time %s arm" % arm, "%s(EPOCH, delta)" % op,
                   "the %s arm (time %s 1970) does not compute %s(UNIX_EPOCH_TIMESTAMP, delta); u64 operations present: %s" % (
                       arm, "after" if arm == "Ok" else "before", op, other), f.loc(), fn=f.name, key="%s|from|%s" % (R, arm))
+    # nothing narrows the tick count after the saturating step: every u64 is a tick count of the format (the maximum reads as the year 60056), so a further
+    # bound (min, clamp, a comparison with a constant) maps distinct representable times to one value
+    import re as _re
+    from ..lib import unit_comparisons
+    narrow = sorted({c[1].rsplit("::", 1)[-1] for c in cs if _re.search(r"(Ord::(min|max|clamp)|<impl u64>::(min|max|clamp|rem_euclid|wrapping_\w+)|<impl i64>::\w+)$", c[1])})
+    cmpk = [(o, x[:40], y[:40]) for (o, x, y, fa) in unit_comparisons(prog, f, S) if _re.fullmatch(r"c:\d{6,}", y) or _re.fullmatch(r"c:\d{6,}", x)]
+    ctx.check(not narrow and not cmpk, R, "from_system_time result is not narrowed", "", "timestamp_from_system_time bounds its result again (%s %s): times between that bound and the "
+              "64-bit tick maximum all read back as one value" % (narrow, cmpk), f.loc(), fn=f.name, key="%s|from|narrow" % R)
     f = prog.fn(M + "system_time_from_timestamp")
     S = Sym(prog, f)
     cs = symcalls(prog, f, S)
